@@ -35,6 +35,13 @@ let zlist_of_hex (s : string) : z list =
   if s = "-" || s = "" then [] else
   List.init (String.length s / 2) (fun i -> z_of_int (int_of_string ("0x" ^ String.sub s (2 * i) 2)))
 
+let checksum (l : z list) : int =
+  List.fold_left (fun h x -> ((h lxor ((int_of_z x) land 255)) * 16777619) mod 1000000007) 2166136261 l
+
+(* short byte strings in hex, long ones as length:checksum *)
+let bytes_repr (l : z list) : string =
+  if List.length l <= 256 then hex_of_zlist l else Printf.sprintf "h%d:%d" (List.length l) (checksum l)
+
 let split_ws s = List.filter (fun x -> x <> "") (String.split_on_char ' ' s)
 
 (* key=value lookup in a token list *)
